@@ -30,13 +30,16 @@ ASSUMPTIONS = ['representation conventions taken from the code under test, not f
                'played; the tail pulse of the last data block is dropped when it is the last thing on the tape',
                'standard-speed blocks (TAP, TZX 0x10) get 8063 pilot pulses only when the flag byte is 0 (the TZX text and the ROM say flag < 128); the property does '
                'not fix the pilot length, so the model follows the code and only the cross-format identity is demanded',
-               'a standard-speed block with no bytes contributes nothing (no pilot, no pause) in all three formats; write_pzx is only given non-empty blocks (it needs '
-               'the flag byte to choose the pilot length)',
+               'a standard-speed block with no bytes contributes nothing (no pilot, no pause) in all three formats; a PZX DATA block with 0 bits contributes nothing '
+               '(its tail pulse is not played); write_pzx is only given non-empty blocks (it needs the flag byte to choose the pilot length)',
                'TZX direct recording: a first sample that is high toggles the level whatever the running level is',
                'PZX: a PULS block that starts with an odd number of zero-duration pulses starts high and those pulses are not played; when the initial level of a '
                'block differs from the running level exactly one edge is inserted at the block start',
-               'data blocks whose bit sequences contain zero-length pulses are compared after cancelling coincident edges (the instants at which the level really '
-               'changes), and their DataBlock ranges are only required to lie inside the edge list',
+               'tapes with a data block whose bit sequences contain zero-length pulses are compared after cancelling coincident edges (the instants at which the level '
+               'really changes; a zero-length toggle at the very end of the tape is not observable and ignored); DataBlock ranges of such blocks are only required to '
+               'lie inside the edge list, and the block before one is not decoded because its last pulse may legitimately be lengthened',
+               'the first distance measured inside a DataBlock range may include the pauses played since the previous edge (a pause produces no edge)',
+               'a DataBlock range may end on the last bit pulse or on the tail pulse',
                'bits are decoded from edge distances only when neither bit sequence is empty, contains 0 or is a prefix of the other; otherwise the block is compared '
                'with the model only',
                'TZX blocks whose play order semantics skoolkit does not implement (jump, call, select, set signal level, CSW, generalized data, C64) are not generated; '
@@ -272,17 +275,24 @@ def classify(fmt, tbs, tags, obs=None, opts=None, m=None):
     mechanism(s) predicts (smallest set of mechanisms that explains it)."""
     if obs is None or obs.edges is None or tbs is None or m is None:
         return None
-    if tags == {'range'} and m.tail_block is not None:
-        # the dropped tail edge belongs to a block that is followed by another data block producing no edge (all its bit
-        # pulses have zero length): only the last DataBlock is clipped, the owner's end stays one past the list
+    if tags and tags <= {'range', 'dbrange'} and m.tail_block is not None:
+        # the dropped tail edge belongs to a block that is followed by another data block producing no edge (every bit
+        # sequence played is empty or of zero length): only the last DataBlock is clipped, the owner's end stays one past the list
         n = len(obs.edges)
+        want = [(i, tb) for i, tb in enumerate(tbs) if tb.data]
         owner = sum(1 for tb in tbs[:m.tail_block + 1] if tb.data) - 1      # position of the owner among the reported data blocks
-        withdata = [d for d in obs.dbs if d[0]]
-        out = [k for k, (data, s, e) in enumerate(obs.dbs) if not (0 <= s <= e < n)]
-        if (len(withdata) == len(obs.dbs) and out == [owner] and owner < len(obs.dbs) - 1 and obs.dbs[owner][2] == n
-                and all(tb.has_zero_seq() and not tb.tail and not any(tm._bit_durations(tb)) for tb in tbs[m.tail_block + 1:] if tb.data)):
-            return FINDINGS['clip']
-        return None
+        if len(want) != len(obs.dbs) or not all(d[0] for d in obs.dbs) or not 0 <= owner < len(obs.dbs) - 1:
+            return None
+        if any(tb.pulses or (tb.data and (tb.tail or any(tm._bit_durations(tb)))) for tb in tbs[m.tail_block + 1:]):
+            return None
+        for k, ((i, tb), (data, s, e)) in enumerate(zip(want, obs.dbs)):
+            rg = m.ranges[i]
+            if k == owner:
+                if e != n or (not m.zero_seq and s != rg['dstart']):
+                    return None
+            elif not (0 <= s <= e < n) or (not m.zero_seq and not tb.has_zero_seq() and (s != rg['dstart'] or e not in (rg['dend'], rg['last']))):
+                return None
+        return FINDINGS['clip']
     if not m.preds:
         return None
     if not tags <= {'edges', 'zero-seq', 'dbrange', 'decode', 'bits'}:
